@@ -667,7 +667,7 @@ def plan(tier):
         ("reno.1sp.server.alt.seed3", "reno", 1, S, "alt", 7, 5, r3),
         ("reno.1sp.client.alt", "reno", 1, C, "alt", 5, 6, []),
         ("cubic.1sp.server.sizes", "cubic", 1, S, SIZES, 5, 5, []),
-        ("cubic.1sp.server.alt", "cubic", 1, S, "alt", 5, 7, []),
+        ("cubic.1sp.server.alt", "cubic", 1, S, "alt", 5, 6, []),
         ("cubic.1sp.server.alt.seed1", "cubic", 1, S, "alt", 5, 6, c1),
         ("cubic.1sp.client.alt", "cubic", 1, C, "alt", 5, 6, []),
         ("reno.2sp.server.alt", "reno", 2, S, "alt", 5, 5, []),
